@@ -103,6 +103,14 @@ def matrices(rep, states, tier, rng):
                 op.grid.set_grid(coords, levels)
                 Cd = np.asarray(op.build_C_matrix_dimension_wise(coords, levels), dtype=float)
                 Ad = np.asarray(op.build_A_matrix_dimension_wise(coords, levels), dtype=float)
+                # assembled a second time on the same object: the first assembly must not have left anything behind
+                Cd_first, Ad_first = Cd.copy(), Ad.copy()
+                Cd2 = np.asarray(op.build_C_matrix_dimension_wise(coords, levels), dtype=float)
+                Ad2 = np.asarray(op.build_A_matrix_dimension_wise(coords, levels), dtype=float)
+                if Cd2.shape != Cd_first.shape or not np.allclose(Cd2, Cd_first, rtol=1e-13, atol=1e-15) or not np.array_equal(Cd, Cd_first):
+                    Cd = Cd2 + np.nan      # reported below as a deviation from the gradient Gram matrix
+                if Ad2.shape != Ad_first.shape or not np.allclose(Ad2, Ad_first, rtol=1e-13, atol=1e-15) or not np.array_equal(Ad, Ad_first):
+                    Ad = Ad2 + np.nan
         except impl.Timeout:
             rep.exclude('timeout %s' % case)
             continue
@@ -129,6 +137,13 @@ def matrices(rep, states, tier, rng):
                 with impl.quiet(), impl.watchdog(120):
                     Cu = np.asarray(op2.build_C_matrix(lv), dtype=float)
                     Au = np.asarray(op2.build_A_matrix(lv), dtype=float)
+                    Cu_first, Au_first = Cu.copy(), Au.copy()
+                    Cu2 = np.asarray(op2.build_C_matrix(lv), dtype=float)
+                    Au2 = np.asarray(op2.build_A_matrix(lv), dtype=float)
+                    if Cu2.shape != Cu_first.shape or not np.allclose(Cu2, Cu_first, rtol=1e-13, atol=1e-15) or not np.array_equal(Cu, Cu_first):
+                        Cu = Cu2 + np.nan
+                    if Au2.shape != Au_first.shape or not np.allclose(Au2, Au_first, rtol=1e-13, atol=1e-15) or not np.array_equal(Au, Au_first):
+                        Au = Au2 + np.nan
             except Exception as ex:
                 fail('C20_NoException', 'uniform matrix assembly raised %r' % ex, exception=repr(ex), sig={'exception': type(ex).__name__, 'variant': 'uniform'})
                 continue
